@@ -11,6 +11,12 @@ func evalFor(c *Case) evalFn {
 		return evalLaw
 	case c.Oracle == "refeq":
 		return evalRefEq
+	case c.Oracle == "solo":
+		return evalSolo
+	case c.Oracle == "panic":
+		return evalPanic
+	case len(c.Oracle) >= 5 && c.Oracle[:5] == "depth":
+		return evalDepth
 	}
 	return nil
 }
